@@ -25,6 +25,26 @@ def default_differs():
     return defaultdict(lambda: diff)
 
 
+def _lookup_predicates(config, path):
+    """Return the predicates for path without storing a default for a missing key.
+
+    The predicate tables are defaultdicts, so a plain item lookup inserts the
+    default on a miss. That made later diffs depend on earlier ones: the guard in
+    diff_dicts mistook such an inserted default for a configured predicate.
+    """
+    predicates = config.predicates
+    key = path or '/'
+    if key in predicates:
+        return predicates[key]
+    default_values = getattr(predicates, 'default_values', None)
+    if default_values is not None and key in default_values:
+        return default_values[key]
+    default_factory = getattr(predicates, 'default_factory', None)
+    if default_factory is not None:
+        return default_factory()
+    return predicates[key]
+
+
 def compare_strings_approximate(x, y, threshold=0.7, maxlen=None):
     "Compare to strings with approximate heuristics."
     # TODO: Add configuration framework
@@ -112,7 +132,7 @@ def diff_sequence_multilevel(a, b, path="", config=None):
         config = DiffConfig()
 
     # Invoke multilevel snake computation algorithm
-    compares = config.predicates[path or '/']
+    compares = _lookup_predicates(config, path)
     snakes = compute_snakes_multilevel(a, b, compares)
 
     # Convert snakes to diff
@@ -126,7 +146,7 @@ def diff_lists(a, b, path="", config=None, shallow_diff=None):
         config = DiffConfig()
 
     # If multiple compares are provided to this path, delegate to multilevel algorithm
-    compares = config.predicates[path or '/']
+    compares = _lookup_predicates(config, path)
     if len(compares) > 1:
         assert shallow_diff is None
         return diff_sequence_multilevel(a, b, path=path, config=config)
